@@ -27,6 +27,7 @@ func (r *caseRun) concurrent(caseData []byte) {
 	var phase atomic.Int64
 	var inWindow atomic.Int64 // calls completed inside the current stable window
 	var stop atomic.Bool
+	var loginGate sync.RWMutex
 	var mu sync.Mutex
 	servedBy := map[string]int{}
 	servedOps := map[string]int{}
@@ -40,11 +41,16 @@ func (r *caseRun) concurrent(caseData []byte) {
 		go func(w int) {
 			defer wg.Done()
 			rnd := fw.NewRand(cs.Content, fmt.Sprintf("c18/concurrent/%d/%d", cs.Role, w))
-			tok := ""
+			tok, tokClean := "", false
 			for !stop.Load() {
 				if tok == "" {
+					// logins never overlap a change of the user (a login racing with SetActiveUser / ChangePermission
+					// is a different question from the one asked here: calls in flight with established logins)
+					loginGate.RLock()
+					e0 := phase.Load()
 					l, err := e.ic.Login(bg(), &schema.LoginRequest{User: []byte(user), Password: []byte(userPw)})
 					if err != nil {
+						loginGate.RUnlock()
 						runtime.Gosched()
 						time.Sleep(200 * time.Microsecond)
 						continue
@@ -53,6 +59,10 @@ func (r *caseRun) concurrent(caseData []byte) {
 					if u, err := e.ic.UseDatabase(tokCtx(tok), &schema.Database{DatabaseName: "db1"}); err == nil {
 						tok = u.Token
 					}
+					// a login that overlapped a change of the user races with it (the server reads the user,
+					// checks the password for ~60 ms, then registers the login): calls with such a token are not judged
+					tokClean = phase.Load() == e0 && e0%2 == 0
+					loginGate.RUnlock()
 				}
 				for i := 0; i < 16 && !stop.Load(); i++ {
 					op := "Get"
@@ -67,7 +77,7 @@ func (r *caseRun) concurrent(caseData []byte) {
 						_, err = e.ic.Get(tokCtx(tok), &schema.KeyRequest{Key: []byte("k0")})
 					}
 					p1 := phase.Load()
-					if p0 == p1 && p0%4 == 2 {
+					if p0 == p1 && p0%4 == 2 && tokClean {
 						inWindow.Add(1)
 						c.Eval(1)
 						kind := kindNow.Load().(string)
@@ -101,6 +111,7 @@ func (r *caseRun) concurrent(caseData []byte) {
 		kindNow.Store(kind)
 		// let the workers log in and work normally for a while (count based)
 		waitCalls(&phase, nil, 0)
+		loginGate.Lock()
 		phase.Add(1) // in flight
 		var err error
 		if kind == "deactivated" {
@@ -111,11 +122,14 @@ func (r *caseRun) concurrent(caseData []byte) {
 		if err != nil {
 			c.Inconclusive("concurrent: invalidation failed: " + err.Error())
 			phase.Add(3)
+			loginGate.Unlock()
 			continue
 		}
 		inWindow.Store(0)
 		phase.Add(1) // stable invalidated window
+		loginGate.Unlock()
 		waitCalls(&phase, &inWindow, 24)
+		loginGate.Lock()
 		phase.Add(1) // restoring
 		if kind == "deactivated" {
 			e.ic.SetActiveUser(sys, &schema.SetActiveUserRequest{Username: user, Active: true})
@@ -123,6 +137,7 @@ func (r *caseRun) concurrent(caseData []byte) {
 			e.ic.ChangePermission(sys, &schema.ChangePermissionRequest{Action: schema.PermissionAction_GRANT, Username: user, Database: "db1", Permission: origPermission(cs.Role)})
 		}
 		phase.Add(1) // normal
+		loginGate.Unlock()
 	}
 	stop.Store(true)
 	wg.Wait()
